@@ -16,20 +16,20 @@ K("c15_id_order", "stream", ["C15"], tier="quick", timeout=300,
 K("c15_id_parse_rest", "stream", ["C15", "C06"], tier="quick", timeout=600,
   desc="StreamId::from_string on every ASCII text of <=5 bytes without an empty numeric part == reference grammar <ms>-<seq> (the <ms> short form is refused cleanly); never panics",
   encodes=["StreamId::from_string", "StreamId::parse_u64_fast"], bounds="<=5 symbolic ASCII bytes, symbolic length; unwind 7")
-K("c15_id_parse_kf", "stream", ["C15", "C06"], tier="thorough", timeout=600, expect="kf:KF-C15-id-empty-part",
+K("c15_id_parse_kf", "stream", ["C15", "C06"], tier="thorough", timeout=600, expect="hold",
   desc="region: text has an empty numeric part ('-', '5-', '-5'): must be refused, ferrous reads the empty part as 0",
   encodes=["StreamId::from_string", "StreamId::parse_u64_fast"], bounds="<=5 symbolic ASCII bytes; unwind 7")
 K("c15_xadd_idbytes_rest", "stream", ["C15", "C06"], tier="quick", timeout=600, memsafe=True,
   desc="XADD explicit-ID argument path (from_utf8_unchecked + StreamId::from_string, as in commands::streams::handle_xadd) on arbitrary bytes incl. invalid UTF-8, outside the region 'byte after the first dash is a UTF-8 continuation byte': no panic, accepted => digits-dash-digits with the reference value",
   encodes=["StreamId::from_string", "StreamId::parse_u64_fast", "(two-line idiom of handle_xadd lines 53-55, copied into the harness)"],
   bounds="<=4 arbitrary bytes, symbolic length; unwind 6")
-K("c15_xadd_idbytes_kf", "stream", ["C15", "C06"], tier="thorough", timeout=600, memsafe=True, expect="kf:KF-C15-xadd-id-char-boundary",
+K("c15_xadd_idbytes_kf", "stream", ["C15", "C06"], tier="thorough", timeout=600, memsafe=True, expect="hold",
   desc="region: byte after the first '-' is 0x80..0xBF (e.g. XADD k \"1-\\x80\" f v): &seq_str[1..] panics (not a char boundary)",
   encodes=["StreamId::from_string"], bounds="<=4 arbitrary bytes; unwind 6")
 K("c15_parse_u64_20digits_rest", "stream", ["C15", "C06"], tier="quick", timeout=600,
   desc="parse_u64_fast on 20 decimal digits whose value fits u64: exact value",
   encodes=["StreamId::parse_u64_fast"], bounds="exactly 20 symbolic digits; unwind 22")
-K("c15_parse_u64_20digits_kf", "stream", ["C15", "C06"], tier="thorough", timeout=600, expect="kf:KF-C15-id-u64-wrap",
+K("c15_parse_u64_20digits_kf", "stream", ["C15", "C06"], tier="thorough", timeout=600, expect="hold",
   desc="region: 20-digit value above u64::MAX (e.g. 18446744073709551616-0): must be refused, ferrous wraps silently (accepted as 0-0...)",
   encodes=["StreamId::parse_u64_fast"], bounds="exactly 20 symbolic digits; unwind 22")
 K("c15_cached_millis_total", "stream", ["C15", "C06"], tier="quick", timeout=600,
@@ -56,7 +56,7 @@ for d, nm in ((False, "fwd"), (True, "rev")):
       desc="%s on a 3-entry stream, start/end/COUNT arbitrary, outside the region 'end below the first entry and start <= first entry': reply == present entries with start <= id <= end, in %s order, first COUNT; state untouched" % ("XREVRANGE" if d else "XRANGE", "reverse" if d else "ID"),
       encodes=["Stream::range", "StreamData::range"], bounds="3 entries with empty field maps; IDs, bounds full-width symbolic; COUNT any Option<usize>; unwind 5",
       stubs=VEC + CLONE0, assumptions=[INV])
-    K("c15_range_%s_n3_kf" % nm, "stream", ["C15"], tier="thorough", timeout=900, expect="kf:KF-C15-range-end-below-first",
+    K("c15_range_%s_n3_kf" % nm, "stream", ["C15"], tier="thorough", timeout=900, expect="hold",
       desc="region: end < first present ID and start <= first present ID (e.g. entries 5-0.., %s): reply must be empty, ferrous returns the first entry" % ("XREVRANGE k 3 1" if d else "XRANGE k 1 3"),
       encodes=["StreamData::range"], bounds="as the _rest harness", stubs=VEC + CLONE0, assumptions=[INV])
 K("c15_range_n0_emptied", "stream", ["C15"], tier="quick", timeout=300,
